@@ -75,9 +75,9 @@ CLAIMED = {
             "Proof: Spec/SyntaxSlice.v writes slice_header, ref_pic_list_modification, pred_weight_table and dec_ref_pic_marking as an encoder relative to the NAL header byte and the activated PPS/SPS; wf_slice states for every element the standard's presence condition (slice type family, NAL type 5, nal_ref_idc, separate_colour_plane, frame_mbs_only, POC type with bottom-field flag and field_pic, redundant_pic_cnt_present, weighted_pred/bipred, entropy_coding_mode, deblocking control) and the representable ranges; B slices with an explicit weight table are excluded as the property says, and the two deblocking offsets and slice_qs_delta, which the library does not store, are extra encoder inputs / recovered from SliceQS. C06_roundtrip: for every context of accepted sets, every conforming header and every following slice data `rest` (on any source kind), slice_header_read returns exactly the structure, the activated SPS and PPS ids, and the source positioned on `rest`. C06_accepted: for every input the parser never aborts (its unbounded loops never run out of fuel), consumes front to back and an accepted header satisfies inv_slice. Correspondence on every run: all slice types x NAL types x ref_idc x 2^13 context flag combinations with boundary values; the 16 bits after the header must be the generated slice data; model = implementation.",
             "Trusted: Coq kernel; the correspondence run ties Model/Slice.v to src/nal/slice/mod.rs; Python encoder of 7.3.3 shapes the inputs. Not covered (as the property allows): PPS with evolving slice groups (slice_group_change_cycle is not parsed by the library).",
             "DESIGN.md 5 C06"),
-    "C11": ("Coq theorems about the T.35 parser and its dumped table (complete sweep), totality of buffering_period / pic_timing; Annex D round trips by differential execution over all VUI shapes",
-            "Partial proof: T.35: the country code (or extension byte) is returned and the remainder starts immediately after it; the model's table equals the implementation's on all 256 first bytes incl. consumed length; distinct codes give distinct values. buffering_period / pic_timing never abort on any payload under any accepted SPS. Their value-level round trip (delay pairs per CPB per present HRD, delays whenever either HRD is present with that HRD's widths, NumClockTS timestamps, signed time offset) is checked by correspondence over VUI shapes {none, NAL, VCL, both} x CPB counts (different per HRD) x widths x time_offset_length x pic_struct 0..15.",
-            "Trusted: Coq kernel; Python encoder of D.1.1/D.1.2 shapes the inputs.",
+    "C11": ("Coq round-trip proofs of buffering_period (D.1.2) and pic_timing (D.1.3) against spec encoders for every accepted SPS, two's-complement time offset lemma, T.35 parser theorems with a complete sweep of the dumped implementation table, totality; model tied to src/nal/sei/*.rs by differential execution over all VUI shapes",
+            "Proof: Spec/SyntaxSei.v writes D.1.2 / D.1.3 as encoders relative to the SPS whose VUI selects presences and widths. C11_bp_roundtrip: for every context of accepted SPS and every payload whose bits are enc_bp of a conforming structure (one delay pair per CPB for each HRD present, width initial_cpb_removal_delay_length_minus1+1 of that HRD) followed by the SEI payload alignment, buffering_period_read returns exactly that structure. C11_pt_roundtrip: CPB/DPB delays exactly when either HRD is present, with the widths of the NAL HRD if present and else of the VCL HRD; pic_struct and exactly NumClockTS optional clock timestamps, each with ct_type, flags, counting type, n_frames, full or flagged seconds/minutes/hours, and a signed time offset of the declared width (time_offset_length of the NAL HRD, else VCL HRD, else 24; C11_time_offset_signed is the two's-complement law). T.35: the country code (or extension byte) is returned and the remainder starts immediately after it; the model's table equals the implementation's on all 256 first bytes incl. consumed length; distinct codes give distinct values. C11_total: neither parser aborts on any payload. Correspondence on every run: all VUI shapes (no VUI, NAL only, VCL only, both with distinct CPB counts, widths 1..32, time_offset_length 0..31, pic_struct on/off) x value extremes, model = implementation.",
+            "Trusted: Coq kernel; the correspondence run ties Model/Sei.v to src/nal/sei/buffering_period.rs, pic_timing.rs, user_data_registered_itu_t_t35.rs; the T.35 table is regenerated from the implementation every run.",
             "DESIGN.md 5 C11"),
     "C12": ("Composition of proved links (C01 framing, C08 accumulation, escape/unescape laws) + differential execution of the whole pipeline model against AnnexBReader::accumulate with a parsing handler",
             "Partial proof: the links are theorems (units = segmentation for every partition; one complete invocation per NAL with all bytes; escape produces no start codes and unescape inverts it); the composed statement (segment (annexb_encode nals) = nals, and parsing inside the handler = parsing alone) is executed, not proved: generated SPS/PPS/SEI/slice sequences with 3-/4-byte start codes, zero padding, payloads to 8 KiB x partitions {1,2,3,127,128,129,16,32,64,random,whole} x Buffer/Ignore policies, also with parameter sets from an AVC configuration record; every NAL also parsed alone in the same run.",
